@@ -355,6 +355,36 @@ bool mint_cert(const CertSpec &s, Minted &out, std::string *err)
             goto done;
         }
     }
+    if (s.mislabelFamily && EVP_PKEY_id(signer) != EVP_PKEY_ED25519)
+    {
+        // relabel both AlgorithmIdentifiers, then sign the re-encoded TBS with the real key and hash
+        const ASN1_BIT_STRING *psig = NULL;
+        const X509_ALGOR *palg = NULL;
+        bool toRsa = EVP_PKEY_id(signer) == EVP_PKEY_EC;
+        int nid = toRsa ? (s.hash == H_SHA384 ? NID_sha384WithRSAEncryption : s.hash == H_SHA512 ? NID_sha512WithRSAEncryption : s.hash == H_SHA1 ? NID_sha1WithRSAEncryption : NID_sha256WithRSAEncryption)
+                        : (s.hash == H_SHA384 ? NID_ecdsa_with_SHA384 : s.hash == H_SHA512 ? NID_ecdsa_with_SHA512 : s.hash == H_SHA1 ? NID_ecdsa_with_SHA1 : NID_ecdsa_with_SHA256);
+        X509_get0_signature(&psig, &palg, x);
+        X509_ALGOR_set0((X509_ALGOR *) X509_get0_tbs_sigalg(x), OBJ_nid2obj(nid), toRsa ? V_ASN1_NULL : V_ASN1_UNDEF, NULL);
+        X509_ALGOR_set0((X509_ALGOR *) palg, OBJ_nid2obj(nid), toRsa ? V_ASN1_NULL : V_ASN1_UNDEF, NULL);
+        unsigned char *tbs = NULL;
+        int tl = i2d_re_X509_tbs(x, &tbs);
+        EVP_MD_CTX *ctx = EVP_MD_CTX_new();
+        size_t sl = 0;
+        bool good = tl > 0 && EVP_DigestSignInit(ctx, NULL, md_of(s.hash), NULL, signer) == 1 && EVP_DigestSign(ctx, NULL, &sl, tbs, (size_t) tl) == 1;
+        Bytes sg(sl);
+        good = good && EVP_DigestSign(ctx, sg.data(), &sl, tbs, (size_t) tl) == 1;
+        EVP_MD_CTX_free(ctx);
+        OPENSSL_free(tbs);
+        if (!good)
+        {
+            if (err) *err = "relabelled signing failed";
+            goto done;
+        }
+        ASN1_BIT_STRING *bs = (ASN1_BIT_STRING *) psig;
+        ASN1_STRING_set(bs, sg.data(), (int) sl);
+        bs->flags &= ~(ASN1_STRING_FLAG_BITS_LEFT | 0x07);
+        bs->flags |= ASN1_STRING_FLAG_BITS_LEFT;
+    }
     {
         const ASN1_BIT_STRING *psig = NULL;
         const X509_ALGOR *palg = NULL;
@@ -390,6 +420,31 @@ int verify_cert(const Bytes &der, int k)
     int r = X509_verify(x, g_keys.at(k));
     X509_free(x);
     return r == 1 ? 1 : 0;
+}
+
+int verify_raw(const Bytes &der, int k, Hash h)
+{
+    const unsigned char *p = der.data();
+    X509 *x = d2i_X509(NULL, &p, (long) der.size());
+    if (!x)
+    {
+        return -1;
+    }
+    const ASN1_BIT_STRING *psig = NULL;
+    const X509_ALGOR *palg = NULL;
+    X509_get0_signature(&psig, &palg, x);
+    unsigned char *tbs = NULL;
+    int tl = i2d_re_X509_tbs(x, &tbs);
+    EVP_MD_CTX *ctx = EVP_MD_CTX_new();
+    int r = 0;
+    if (tl > 0 && EVP_DigestVerifyInit(ctx, NULL, EVP_PKEY_id(g_keys.at(k)) == EVP_PKEY_ED25519 ? NULL : md_of(h), NULL, g_keys.at(k)) == 1)
+    {
+        r = EVP_DigestVerify(ctx, psig->data, (size_t) psig->length, tbs, (size_t) tl) == 1 ? 1 : 0;
+    }
+    EVP_MD_CTX_free(ctx);
+    OPENSSL_free(tbs);
+    X509_free(x);
+    return r;
 }
 
 bool mint_crl(const CrlSpec &s, Bytes &der, std::string *err)
